@@ -170,10 +170,22 @@ pub fn surjproof(rng: &mut R) -> Box<SurjectionProof> {
 }
 
 pub fn script(rng: &mut R) -> Script {
+    // rarely: a length on either side of MAX_SCRIPT_SIZE (10 000), with or without a leading OP_RETURN
+    if rng.gen_range(0..60) == 0 {
+        let n = [9_999usize, 10_000, 10_001][rng.gen_range(0..3)];
+        let mut b = bytes(rng, n);
+        b[0] = if rng.gen_bool(0.5) { 0x6a } else { 0x51 };
+        return Script::from(b);
+    }
     let n = small_len(rng);
     Script::from(bytes(rng, n))
 }
 pub fn stack(rng: &mut R) -> Vec<Vec<u8>> {
+    // rarely: an item count on either side of the 0xfd compact-size boundary (items mostly empty)
+    if rng.gen_range(0..40) == 0 {
+        let n = [252usize, 253, 254][rng.gen_range(0..3)];
+        return (0..n).map(|i| if i % 97 == 0 { vec![i as u8] } else { vec![] }).collect();
+    }
     let n = match rng.gen_range(0..6) {
         0 | 1 => 0,
         2 => 1,
